@@ -154,7 +154,7 @@ func init() {
 		vpRunGroups(keys, groups, env.seed, func(rng *mrand.Rand, key string, cs []*vpCase) {
 			opt := vpM(map[string]interface{}{"o": cs[0].In["opt"]}, "o")
 			pkce := vpS(opt, "pkce")
-			cfg := &vpCfg{CSRFPerRequest: vpB(opt, "perReq"), EncodeState: vpB(opt, "encodeState"), PKCE: pkce, SkipNonce: vpB(opt, "skipNonce")}
+			cfg := &vpCfg{CSRFPerRequest: vpB(opt, "perReq"), EncodeState: vpB(opt, "encodeState"), PKCE: pkce, SkipNonce: vpB(opt, "skipNonce"), AdvertisePKCE: vpS(opt, "advertise")}
 			w, err := vpNewWorld(cfg)
 			if err != nil {
 				for _, c := range cs {
